@@ -15,7 +15,9 @@ import (
 )
 
 type poolState struct {
-	items []Value
+	private    Value
+	hasPrivate bool
+	items      []Value
 }
 
 func bytesOf(v Value) []Value {
@@ -353,7 +355,17 @@ func (i *Interp) registerStd() {
 	R("strconv.ParseFloat", func(fr *frame, a []Value) Value {
 		s, ok := a[0].(string)
 		if !ok {
-			i.unsupported("strconv.ParseFloat on symbolic string")
+			// float conversion is not encoded: the bytes of a symbolic literal are concretised one by one
+			// (each value of each byte is its own path), then the real conversion runs
+			ss, isSym := a[0].(*SymStr)
+			if !isSym {
+				i.unsupported("strconv.ParseFloat on " + fmt.Sprintf("%T", a[0]))
+			}
+			buf := make([]byte, len(ss.b))
+			for k, c := range ss.b {
+				buf[k] = byte(i.concInt(c, "ParseFloat byte"))
+			}
+			s = string(buf)
 		}
 		f, err := strconv.ParseFloat(s, int(a[1].(int64)))
 		if err != nil {
@@ -378,6 +390,13 @@ func (i *Interp) registerStd() {
 	R("(*sync.Pool).Get", func(fr *frame, a []Value) Value {
 		p := a[0].(*Value)
 		ps := i.pools[p]
+		// the discipline of the real pool on one goroutine without a GC cycle: the private slot first, then the
+		// shared list newest first (the order is unspecified by the API; this is the order the native twin sees)
+		if ps != nil && ps.hasPrivate {
+			v := ps.private
+			ps.private, ps.hasPrivate = nil, false
+			return v
+		}
 		if ps != nil && len(ps.items) > 0 {
 			v := ps.items[len(ps.items)-1]
 			ps.items = ps.items[:len(ps.items)-1]
@@ -404,6 +423,10 @@ func (i *Interp) registerStd() {
 		if ps == nil {
 			ps = &poolState{}
 			i.pools[p] = ps
+		}
+		if !ps.hasPrivate {
+			ps.private, ps.hasPrivate = a[1], true
+			return nil
 		}
 		ps.items = append(ps.items, a[1])
 		return nil
